@@ -211,6 +211,9 @@ func (p *Parser) expectPeekVarOrAutoVar(scriptName string) (*string, *ast.Comman
 		}
 		varName := cmd.VarName
 		if cmd.VarNameArgPosition != nil {
+			if *cmd.VarNameArgPosition < 0 {
+				return nil, nil, nil, NewRangeParseError(commandToken, p.curToken, fmt.Sprintf("auto-var command %s has an invalid arg position of %d", cmdName, *cmd.VarNameArgPosition))
+			}
 			if *cmd.VarNameArgPosition > len(commandStmt.Args)-1 {
 				return nil, nil, nil, NewRangeParseError(commandToken, p.curToken, fmt.Sprintf("auto-var command %s has an arg position of %d, but only %v arguments were provided", cmdName, *cmd.VarNameArgPosition, len(commandStmt.Args)))
 			}
